@@ -26,7 +26,9 @@ type c16Case struct {
 	AcceptEnc string     `json:"accept_encoding"`
 	Threshold int        `json:"threshold"`
 	Batches   [][]outMsg `json:"batches"`
-	Seed      string     `json:"seed"`
+	// RotateAE: every poll of the session names its own Accept-Encoding (drawn per poll)
+	RotateAE bool   `json:"accept_encoding_differs_per_poll"`
+	Seed     string `json:"seed"`
 }
 
 var c16AE = []string{"", "gzip", "deflate", "br", "zstd", "gzip, deflate", "br;q=1.0, gzip;q=0.5", "identity", "*", "x-br-custom", "xgzip", "bread, undeflated", "GZIP", "GZip", "DEFLATE;q=0.8", "Br", "ZStd", "gzip;q=0", "compress, zstd"}
@@ -40,6 +42,7 @@ func genC16(rng *rand.Rand) c16Case {
 	c.JSONP = rng.IntN(3) == 0
 	c.B64 = rng.IntN(3) == 0 || (c.JSONP && c.Rev == 3)
 	c.AcceptEnc = c16AE[rng.IntN(len(c16AE))]
+	c.RotateAE = rng.IntN(3) == 0
 	if c.JSONP {
 		c.J = c16J[rng.IntN(len(c16J))]
 		if rng.IntN(12) == 0 {
@@ -123,6 +126,7 @@ func runC16(c c16Case, rng *rand.Rand, r *rep.Report) (key, msg string, stats ma
 				key, msg = classifyC16(c, "c16-handshake-undecodable"), fmt.Sprint(err)
 				// still analyse the raw handshake response below
 			}
+			aeOf := []string{c.AcceptEnc} // Accept-Encoding of the handshake and of every poll after it
 			if sock != nil {
 				for _, ms := range c.Batches {
 					// one batch = sends issued while no poll is pending
@@ -136,8 +140,12 @@ func runC16(c c16Case, rng *rand.Rand, r *rep.Report) (key, msg string, stats ma
 						sock.Send(mkReader(*m), mkOptions(*m, c01Case{Rev: c.Rev, B64: c.B64}), nil)
 					}
 					rig.Wait()
+					if c.RotateAE {
+						cl.Cfg.AcceptEnc = []string{"gzip", "deflate", "br", "zstd", "", "identity", "GZip", "br;q=1.0, gzip;q=0.5"}[rng.IntN(8)]
+					}
+					aeOf = append(aeOf, cl.Cfg.AcceptEnc)
 					if _, ok := cl.PollStart().WaitFor(5 * time.Second); !ok {
-						key, msg = "c16-poll-not-answered", fmt.Sprintf("a poll with Accept-Encoding %q was not answered within 5 s although a batch was waiting", c.AcceptEnc)
+						key, msg = "c16-poll-not-answered", fmt.Sprintf("a poll with Accept-Encoding %q was not answered within 5 s although a batch was waiting", cl.Cfg.AcceptEnc)
 						return
 					}
 					rig.Wait()
@@ -282,9 +290,16 @@ func runC16(c c16Case, rng *rand.Rand, r *rep.Report) (key, msg string, stats ma
 						key, msg = "c16-compressed-below-threshold", fmt.Sprintf("poll #%d is %s-encoded: %d bytes, threshold %d", pi, ce, len(raw), c.Threshold)
 						return
 					}
-					if !refcodec.AcceptNames(c.AcceptEnc, ce) {
-						key, msg = "c16-coding-not-accepted", fmt.Sprintf("Accept-Encoding %q does not name %q, yet the response uses it", c.AcceptEnc, ce)
+					ae := c.AcceptEnc
+					if pi < len(aeOf) {
+						ae = aeOf[pi]
+					}
+					if !refcodec.AcceptNames(ae, ce) {
+						key, msg = "c16-coding-not-accepted", fmt.Sprintf("poll #%d: Accept-Encoding %q does not name %q, yet the response uses it", pi, ae, ce)
 						return
+					}
+					if c.RotateAE {
+						stats["compressed_responses_in_sessions_whose_polls_name_different_codings"]++
 					}
 				}
 			}
